@@ -4,4 +4,4 @@ From Coq Require Import ExtrOcamlBasic.
 From OlaBase Require Import Bytes.
 From C06 Require Import Gen Prog Dmx GenShowNet ShowNet GenAcn Acn GenArtNet ArtNet GenEspNet EspNet GenSandNet SandNet GenPathport Pathport GenKiNet KiNet.
 Extraction Language OCaml.
-Extraction "model.ml" io_witness N.div_eucl run shownet_handle shownet_handle_fixed sn_within SN_PACKET_SIZE acn_handle ACN_MAX_DATAGRAM artnet_handle AN_PACKET_SIZE mk_an_state es_handle ES_PACKET_SIZE sa_handle SA_PACKET_SIZE pathport_handle PP_PACKET_SIZE kinet_handle KN_PACKET_SIZE.
+Extraction "model.ml" io_witness N.div_eucl run shownet_handle shownet_handle_fixed sn_within SN_PACKET_SIZE track_events decode_address acn_handle ACN_MAX_DATAGRAM artnet_handle AN_PACKET_SIZE mk_an_state es_handle ES_PACKET_SIZE sa_handle SA_PACKET_SIZE pathport_handle PP_PACKET_SIZE kinet_handle KN_PACKET_SIZE.
